@@ -1,4 +1,4 @@
-import PoolModel.C10Order
+import PoolModel.C10Snapshot
 import PoolModel.Util
 /-! Line-protocol driver of the C10 model. Every op carries bytes produced by the real code (hex; `-` = empty,
 `nil` = absent key) and prints the model's decoding in a canonical text form plus `re=1` when the model's
@@ -8,6 +8,11 @@ import PoolModel.Util
   tx <hex>                         wire.MsgTx.Deserialize
   el <type> <hex>                  one ReadElement of the given element type
   tlv <known: t:k,t:k…|-> <hex>    tlv stream decode (k = b|q|v for u8/u64/bytes)
+  order <nonce> <base> <minunits> <tlv> <tier>     fetchOrderTX + GetOrder callback on the four bucket values
+  ordbase <nonce> <hex> / ordtlv ask|bid <hex>     DeserializeOrder / deserializeOrderTlvData alone
+  snap <hex>                       deserializeLocalBatchSnapshot (maps rendered sorted by key)
+  snapfull <hex> (<nonce> <base> <minunits> <tlv> <tier>)*   + completion of own orders (GetLocalBatchSnapshot)
+  addrs <hex>                      lnwire net address list
 -/
 namespace Pool.C10
 open Pool.Util
@@ -84,6 +89,63 @@ def renderOrder : Order → String
 def optBytes (s : String) : Option (Option Bytes) :=
   if s == "nil" then some none else (unhex s).map some
 
+def renderAddr : Addr → String
+  | .tcp4 ip p => s!"t4:{hx ip}:{p}"
+  | .tcp6 ip p => s!"t6:{hx ip}:{p}"
+  | .onionV2 h p => s!"o2:{hx h}:{p}"
+  | .onionV3 h p => s!"o3:{hx h}:{p}"
+  | .opaque pl => s!"op:{hx pl}"
+
+def renderAddrs (as : List Addr) : String := if as.isEmpty then "." else joinWith ";" (as.map renderAddr)
+
+/-- stable insertion sort of (key, text) pairs by key -/
+def insertByKey (x : String × String) : List (String × String) → List (String × String)
+  | [] => [x]
+  | y :: ys => if x.1 > y.1 then y :: insertByKey x ys else x :: y :: ys
+
+def sortByKey (l : List (String × String)) : List (String × String) := l.foldr insertByKey []
+
+def renderSorted (l : List (String × String)) : String :=
+  if l.isEmpty then "." else joinWith "|" ((sortByKey l).map (·.2))
+
+def renderMatch (m : Match) : String :=
+  "{" ++ s!"{hx m.ourNonce} {renderOrder m.order} msk={hx m.multiSigKey} nk={hx m.nodeKey} " ++
+  s!"addrs={renderAddrs m.nodeAddrs} uf={m.unitsFilled}" ++ "}"
+
+def padNum (n : Nat) : String :=
+  let s := toString n
+  String.ofList (List.replicate (12 - s.length) '0') ++ s
+
+def renderSnapshot (s : Snapshot) : String :=
+  s!"snap ver={s.version} id={hx s.batchID} fee={s.feeBase}/{s.feeRate} txfee={s.batchTxFeeRate} " ++
+  s!"tx={renderTx s.batchTx} prices=" ++
+  renderSorted (s.clearingPrices.map fun (d, p) => (padNum d, s!"{d}:{p}")) ++
+  " accts=" ++ renderSorted (s.accounts.map fun (k, a) => (hx k, "{" ++ s!"{hx k} {renderAcct a}" ++ "}")) ++
+  " orders=" ++ renderSorted (s.orders.map fun (n, o) => (hx n, "{" ++ s!"{hx n} {renderOrder o}" ++ "}")) ++
+  " matched=" ++ renderSorted (s.matched.map fun m => (hx m.ourNonce, renderMatch m))
+
+/-- parse `n` groups of 5 tokens (nonce base minUnits tlv tier) -/
+def parseRecs : List String → Option (List (Bytes × OrderRec))
+  | [] => some []
+  | n :: b :: mu :: t :: ti :: rest =>
+    match unhex n, optBytes b, optBytes mu, optBytes t, optBytes ti, parseRecs rest with
+    | some n, some b, some mu, some t, some ti, some tl => some ((n, ⟨b, mu, t, ti⟩) :: tl)
+    | _, _, _, _, _, _ => none
+  | _ => none
+
+/-- complete every own order of a decoded snapshot from the given order buckets (`fetchLocalBatchSnapshot`) -/
+def completeAll (recs : List (Bytes × OrderRec)) : List (Bytes × Order) → Res (List (Bytes × Order))
+  | [] => .ok [] []
+  | (n, o) :: rest =>
+    match completeOrder o (recs.lookup n) with
+    | .ok o' _ =>
+      match completeAll recs rest with
+      | .ok tl _ => .ok ((n, o') :: tl) []
+      | .err => .err
+      | .panic => .panic
+    | .err => .err
+    | .panic => .panic
+
 def parseKnown (s : String) : Option (List (Nat × RecKind)) :=
   if s == "-" then some [] else
   (s.splitOn ",").mapM fun e =>
@@ -143,6 +205,34 @@ def drvStep (s : DrvSt) (args : List String) : DrvSt × String :=
           | .ok o _ => s!"ok {renderOrder o}"
           | .err => "err"
           | .panic => "panic")
+    | none => (s, "bad-op")
+  | ["snap", h] =>
+    match unhex h with
+    | some b => (s, renderRes b (deserializeSnapshot b) renderSnapshot (fun x => serBytes (serializeSnapshot x)))
+    | none => (s, "bad-op")
+  | ["snapm", h] =>
+    match unhex h with
+    | some b =>
+      (s, match deserializeSnapshot b with
+          | .ok sn _ => "ok " ++ renderSnapshot sn
+          | .err => "err"
+          | .panic => "panic")
+    | none => (s, "bad-op")
+  | "snapfull" :: h :: recs =>
+    match unhex h, parseRecs recs with
+    | some b, some recs =>
+      (s, match deserializeSnapshot b with
+          | .ok sn _ =>
+            match completeAll recs sn.orders with
+            | .ok os _ => "ok " ++ renderSnapshot { sn with orders := os }
+            | .err => "err"
+            | .panic => "panic"
+          | .err => "err"
+          | .panic => "panic")
+    | _, _ => (s, "bad-op")
+  | ["addrs", h] =>
+    match unhex h with
+    | some b => (s, renderRes b (readAddrs b) renderAddrs (fun x => some (encAddrs x)))
     | none => (s, "bad-op")
   | ["tlv", k, h] =>
     match parseKnown k, unhex h with
